@@ -569,6 +569,33 @@ fn corruptions(seed: &str) -> Vec<String> {
       let mut d = chars.clone();
       d[i] = (((chars[i] as u8 - b'0' + 1) % 10) + b'0') as char;
       out.push(d.into_iter().collect());
+      // decimal digits of other scripts with the same value (Arabic-Indic, Devanagari, fullwidth): a literal is written
+      // with the digits 0-9 only
+      let v = chars[i] as u32 - '0' as u32;
+      for base in [0x0660u32, 0x0966, 0xFF10] {
+        let mut d = chars.clone();
+        d[i] = char::from_u32(base + v).unwrap();
+        out.push(d.into_iter().collect());
+      }
+    }
+    // letters that are equal to a designator only after case folding or width folding
+    let look_alikes: &[char] = match chars[i] {
+      'T' => &['t', 'Ｔ'],
+      'Z' => &['z', 'Ｚ'],
+      'P' => &['p', 'Ｐ'],
+      'S' => &['s', 'ſ'],
+      'M' => &['m'],
+      'H' => &['h'],
+      'D' => &['d'],
+      'Y' => &['y'],
+      '-' => &['−', '‐'],
+      ':' => &['：'],
+      _ => &[],
+    };
+    for s in look_alikes {
+      let mut d = chars.clone();
+      d[i] = *s;
+      out.push(d.into_iter().collect());
     }
   }
   out.sort();
